@@ -43,6 +43,7 @@ KEYS = ["vb", "a.b", "a.c", "x-y", "x_y", "a.x-y", "a.x_y"]
 UNIVERSE = [
     "vb", "a", "a.b", "a.c", "a.d", "a.e", "a.z", "x-y", "a.x-y", "n", "n.p", "n.p.q", "n.p.r",
     "new", "new.k", "device", "verbose", "viz.cmap", "mkl.threads", "cupy.fft-cache-size", "d-e.f-g",
+    "viz.colors.set", "viz.colors", "deep.l2.l3.l4", "deep.l2",
 ]
 DEVICES = ["cpu", "cpu:1", None, "gpu", "cuda:0", "cuda:9", "mps", "tpu", -1, 3.5, "cuda:x", 0, "CPU", ""]
 
@@ -64,6 +65,12 @@ def build_events():
         ("dflt", {"x_y": 20}),
         ("dflt", {"new": {"k": 10}}),
         ("dflt", {"a": {"b": 20, "c": 10}}),
+        # defaults three and four levels deep (the shipped yaml has viz.colors.set at depth 3)
+        ("dflt", {"n": {"p": {"q": 10}}}),
+        ("dflt", {"deep": {"l2": {"l3": {"l4": 10}}}}),
+        ("set", "viz.colors.set", 1),
+        ("set", "deep.l2.l3.l4", 1),
+        ("set", "n.p.q", 2),
         ("refresh",),
     ]
     ev += [("dev", d) for d in DEVICES]
